@@ -530,9 +530,24 @@ func enumerateSchedules(exec func(tape []int) (ks, ns []int, stop bool), maxRuns
 		}
 		// next schedule: the deepest step with an untried alternative. Inside a subtree (first `depth`
 		// choices) that belongs to another shard only the top levels are advanced.
+		// (the subtree is identified by the first `depth` choices made at steps that had an alternative;
+		// steps with a single runnable goroutine do not split the tree)
 		lim := len(ks) - 1
-		if mine != nil && len(ks) >= depth && !mine(ks[:depth]) {
-			lim = depth - 1
+		if mine != nil {
+			var key []int
+			last := -1
+			for j := range ks {
+				if ns[j] > 1 {
+					key = append(key, ks[j])
+					last = j
+					if len(key) == depth {
+						break
+					}
+				}
+			}
+			if len(key) == depth && !mine(key) {
+				lim = last
+			}
 		}
 		i := lim
 		for i >= 0 && ks[i]+1 >= ns[i] {
@@ -578,11 +593,12 @@ func runEnum[S any](t *testing.T, prop string, configs []S, withTape func(S, []i
 	maxRuns := envInt("VERIF_ENUM_MAX", 40000)
 	shard, shards := envInt("VERIF_SHARD_INDEX", 0), envInt("VERIF_SHARDS", 1)
 	mine := func(prefix []int) bool {
-		h := 0
+		h := uint64(1469598103934665603)
 		for _, c := range prefix {
-			h = h*7 + c + 1
+			h = (h ^ uint64(c+1)) * 1099511628211
 		}
-		return h%shards == shard
+		h ^= h >> 29
+		return int(h%uint64(shards)) == shard
 	}
 	only := envInt("VERIF_ENUM_CFG", -1)
 	for cfg := range configs {
@@ -611,7 +627,7 @@ func runEnum[S any](t *testing.T, prop string, configs []S, withTape func(S, []i
 				t.Fatalf("%s violated: %s\nconfiguration %d, schedule: %v\nreplay: %s", prop, res.Verdict, cfg, res.TraceK, p)
 			}
 			return res.TraceK, res.TraceN, false
-		}, maxRuns, 5, mine)
+		}, maxRuns, 8, mine)
 		col.AddExtra(fmt.Sprintf("enum_cfg%d_schedules", cfg), int64(runs))
 		col.AddExtra("enumerated_schedules", int64(runs))
 		if exhausted {
